@@ -202,6 +202,7 @@ class ProgSet:
                 continue
             shards[k % self.n].append(p)
             k += 1
+        self._shard_ids = {si: [p[0] for p in sh] for si, sh in enumerate(shards)}
         for si, sh in enumerate(shards):
             name = f"{self.prefix}_{si}"
             lines = ["#![allow(unused, clippy::all, long_running_const_eval)]", "mod support;", "use support::*;"] + self.prelude.split("\n") + [""]
@@ -261,6 +262,20 @@ class ProgSet:
         with concurrent.futures.ThreadPoolExecutor(self.n) as ex:
             for si, (rc, o, e) in enumerate(ex.map(one, range(self.n))):
                 if rc != 0:
+                    # a crashing runner (abort / signal: memory error inside the code under test - the generated programs
+                    # contain no unsafe) is isolated by running each of the shard's programs in its own process
+                    ids = getattr(self, "_shard_ids", {}).get(si, [])
+                    if rc in (-6, -11, -7, -4, 134, 139) and ids and not args:
+                        for pid in ids:
+                            rc1, o1, e1 = run_bin(ws, f"{self.prefix}_{si}", [str(pid)], timeout=60)
+                            if rc1 == 0:
+                                for line in o1.splitlines():
+                                    if line.startswith("{"):
+                                        res.append(json.loads(line))
+                            else:
+                                res.append({"id": pid, "n": 1, "bad": 1, "outcomes": 1, "crash": True,
+                                            "first_bad": {"case": "<program crashed the process>", "konst": f"process died (status {rc1}): {(e1 or '').strip()[-200:]}", "std": "no memory error"}})
+                        continue
                     mach.append(f"runner {self.prefix}_{si} failed: rc={rc} {e[-800:]}")
                     continue
                 for line in o.splitlines():
@@ -311,7 +326,9 @@ pub struct Prog { pub id: u32, pub f: fn() -> Vec<(String, String, String)> }
 
 pub fn run(progs: &[Prog]) {
     std::panic::set_hook(Box::new(|_| {}));
+    let only: Option<u32> = std::env::args().nth(1).and_then(|x| x.parse().ok());
     for p in progs {
+        if let Some(o) = only { if o != p.id { continue; } }
         let cases = match catch_unwind(|| (p.f)()) { Ok(c) => c, Err(_) => vec![("<program panicked outside cu()>".to_string(), "panic".to_string(), "no panic".to_string())] };
         let mut bad = 0;
         let mut first = String::from("null");
